@@ -101,8 +101,22 @@ def observe(tag, H, g, is_sc, rng, plt):
     def node_at(pt):
         return back.get((float(round(pt[0], 6)), float(round(pt[1], 6))), -3)
 
+    def rendered(coll):
+        """the markers that are actually drawn: matplotlib masks points whose colour or size is not finite"""
+        off = coll.get_offsets()
+        rows = []
+        for k_ in range(len(off)):
+            p_ = off[k_]
+            if np.ma.is_masked(p_) or not np.all(np.isfinite(np.asarray(np.ma.filled(p_, np.nan), dtype=float))):
+                continue
+            rows.append(node_at(np.asarray(p_, dtype=float)))
+        sz = np.asarray(np.ma.filled(coll.get_sizes(), np.nan), dtype=float)
+        if len(sz) == len(off) and len(sz) and not np.all(np.isfinite(sz)):
+            rows = [r_ for r_, z in zip(rows, sz) if np.isfinite(z)]
+        return rows
+
     def scene(node_coll, dyad_coll, edge_coll):
-        markers = [node_at(p) for p in node_coll.get_offsets()] if node_coll is not None else [-5]
+        markers = rendered(node_coll) if node_coll is not None else [-5]
         lines = [[node_at(s[0]), node_at(s[-1])] for s in dyad_coll.get_segments()]
         polys = []
         for path in edge_coll.get_paths():
@@ -112,7 +126,11 @@ def observe(tag, H, g, is_sc, rng, plt):
         return markers, lines, polys
 
     styles = [dict(), dict(node_fc="red", node_size=5), dict(node_fc=H.nodes.degree, node_size=H.nodes.degree),
-              dict(node_size={n: 3 + k for k, n in enumerate(H.nodes)}, node_labels=True, hyperedge_labels=True)]
+              dict(node_size={n: 3 + k for k, n in enumerate(H.nodes)}, node_labels=True, hyperedge_labels=True),
+              # values that are not finite for some nodes (a statistic that is undefined there); the same value everywhere
+              dict(node_fc={n: (float("nan") if k % 2 else 0.5) for k, n in enumerate(H.nodes)}),
+              dict(node_size={n: 7 for n in H.nodes}, node_lw={n: 2 for n in H.nodes}),
+              dict(node_fc=H.nodes.clustering_coefficient, node_size=[6.0] * H.num_nodes)]
     mos = [None, 1, 2, 3]
     for si, style in enumerate(styles):
         mo = mos[si % len(mos)]
@@ -156,7 +174,7 @@ def observe(tag, H, g, is_sc, rng, plt):
     def dn():
         ax, nc = xgi.draw_nodes(H, pos=pos, node_fc=H.nodes.degree)
         return base(f"{tag}.draw_nodes", "draw", "draw_nodes", st, sc=is_sc, mo=0,
-                    markers=[node_at(p) for p in nc.get_offsets()],
+                    markers=rendered(nc),
                     lines=[] if not is_sc else [], polys=[])
     # draw_nodes only: compare the markers (scene clauses for lines / polygons do not apply)
     try:
@@ -164,7 +182,7 @@ def observe(tag, H, g, is_sc, rng, plt):
         with warnings.catch_warnings():
             warnings.simplefilter("ignore")
             ax, nc = xgi.draw_nodes(H, pos=pos, node_fc=H.nodes.degree)
-            mk = [node_at(p) for p in nc.get_offsets()]
+            mk = rendered(nc)
         r = base(f"{tag}.draw_nodes", "layout", "draw_nodes", st, keys=mk, ok=[m == n for m, n in zip(mk, st["nodes"])])
         out.append(r)
     except Exception as ex:  # noqa: BLE001
